@@ -152,6 +152,12 @@ def gen_cases(rng, tier):
     for rep in range(4 if tier == 'quick' else 40):
         for cap in range(1, 17):
             cases.append(_ring_case(rng, cap, rng.int(1, 6 * cap + 10), 'ring-cap%d-%d' % (cap, rep)))
+    # LONG histories (beyond the property's 10 W, which bounds what must hold, not what may be run): index / counter arithmetic
+    # narrower than size_t wraps only after 256 / 65536 operations (cf. seeded change c17e on the rate monitor's ring)
+    for k, (kind, W) in enumerate([('avg', 3), ('var', 5), ('avg', 64), ('var', 48)]):
+        cases.append(_stat_case(rng, kind, W, rng.choice(PRECISIONS), 700 if tier == 'quick' else 70000, '%s-W%d-long' % (kind, W)))
+    for cap in (3, 7, 16):
+        cases.append(_ring_case(rng, cap, 700 if tier == 'quick' else 70000, 'ring-cap%d-long' % cap))
     return cases
 
 
